@@ -83,6 +83,12 @@ def cases(tier, seed):
                     ka, kb = ka[:3], kb[:3]
                 out.append(dict(kind='registered', cfg=cfg, op=op, ka=ka, kb=kb, va=_variants(ka, d, rng, n_perm=3, n_pad=1),
                                 vb=_variants(kb, d, rng, n_perm=1, n_pad=1)[:2]))
+    # d = 4: inverse / division of single-grade, NON-simple operands (e12 + e34) under storage variants
+    for cfg in (dict(p=4), dict(p=3, r=1), dict(p=1, q=3)):
+        for ka in ([3, 12], [3, 12, 5], [6, 9], [7, 11]):
+            va = [dict(keys=list(reversed(ka)), how='perm'), dict(keys=[0] + ka, how='pad'), dict(keys=ka + [15], how='pad'), dict(keys=None, how='asfullmv')]
+            out.append(dict(kind='unary', cfg=cfg, op='inv', ka=ka, va=va))
+            out.append(dict(kind='binary', cfg=cfg, op='div', ka=[1, 2], kb=ka, va=[dict(keys=[2, 1], how='perm')], vb=va[:3]))
     for cfg in cfgs:
         d = 3 if cfg.get('name') == '2DPGA' else (4 if cfg.get('name') == '3DPGA' else sum(v for k, v in cfg.items() if k in 'pqr'))
         nondeg = cfg.get('r', 0) == 0 and 'name' not in cfg
